@@ -106,6 +106,16 @@ CHECKS = {
         note='pickle byte level not modelled; import judged on ordinary-reference exports only; the weak-adds deviation is the '
              'named constant WeakAdds; F20 (placeholder newargs lost on ghostification) known finding',
         design='6/C14'),
+    'C15': dict(
+        technique='TLA+ spec ZHistorical model-checked by TLC; directed histories evaluated by TLC (ZScript/ZStorage) replayed '
+                  'on FileStorage, historical connections opened at every bound/form and compared with the printed table',
+        text='TLC checks HistoricalExact, NeverFromTheFuture, BoundNotInFuture, WritesRefused; conformance: after every commit '
+             'of TLC-evaluated histories (later-changed, deleted, un-created, later-created objects, stalled clock) real '
+             'historical connections are opened with before=tid, at=tid, datetime forms (sub-second and whole-second), every '
+             'object read and compared with the loadBefore table TLC printed; connections kept open across later commits are '
+             're-read; writes must raise ReadOnlyHistoryError and leave the commit lock free; future points must be refused.',
+        note='FileStorage histories without pack; sampled bounds (5 per commit) in quick',
+        design='6/C15'),
     'C18': dict(
         technique='TLA+ spec ZRepozo (transcription of do_backup/find_files/scandat/delete_old_backups, derived recover/verify '
                   'tables) model-checked by TLC; the whole dumped state graph replayed on a real FileStorage + real repozo calls',
